@@ -482,21 +482,55 @@ func c07Pad(c *Ctx) {
 	}
 	key := func(s string) string { return "dhcpv4.DHCPv4.ToBytes: " + s }
 	var rep *ssa.Call
+	// site: the instruction of ToBytes that stands for the padding value (the Repeat call itself, or the call of a
+	// straight-line unexported helper that returns it); rew maps the helper's parameters to the arguments
+	var site *ssa.Call
+	rew := func(s string) string { return s }
 	allInstrs(f, func(in ssa.Instruction) {
-		if cl, ok := in.(*ssa.Call); ok && isFuncCall(cl.Common(), "bytes", "Repeat") {
-			rep = cl
+		cl, ok := in.(*ssa.Call)
+		if !ok {
+			return
+		}
+		if isFuncCall(cl.Common(), "bytes", "Repeat") {
+			rep, site = cl, cl
+			return
+		}
+		g := cl.Call.StaticCallee()
+		if g == nil || !inModule(g) || g.Blocks == nil || len(g.Blocks) != 1 || token.IsExported(g.Name()) || g.Signature.Recv() != nil {
+			return
+		}
+		for _, i2 := range g.Blocks[0].Instrs {
+			if c2, ok := i2.(*ssa.Call); ok && isFuncCall(c2.Common(), "bytes", "Repeat") && rep == nil {
+				ret, isRet := g.Blocks[0].Instrs[len(g.Blocks[0].Instrs)-1].(*ssa.Return)
+				if !isRet || len(ret.Results) != 1 || ret.Results[0] != ssa.Value(c2) {
+					continue
+				}
+				rep, site = c2, cl
+				sub := map[string]string{}
+				for i, p := range g.Params {
+					if i < len(cl.Call.Args) {
+						sub[sx.Of(p).String()] = sx.Of(cl.Call.Args[i]).String()
+					}
+				}
+				rew = func(s string) string {
+					for from, to := range sub {
+						s = strings.ReplaceAll(s, from, to)
+					}
+					return s
+				}
+			}
 		}
 	})
 	if rep == nil {
 		r.Violation("C07-K4", key("padding to the BOOTP minimum"), c.P.pos(f.Pos()), "no padding: packets shorter than 300 bytes are emitted (RFC 951 relays drop them)")
 		return
 	}
-	cnt := sx.Of(rep.Call.Args[1]).String()
+	cnt := rew(sx.Of(rep.Call.Args[1]).String())
 	okCnt := strings.HasPrefix(cnt, "bin[-](const(300),call[(*github.com/u-root/uio/uio.Buffer).Len](")
 	r.Check(okCnt, "C07-K4", key("pad count is 300 − Len()"), c.P.ipos(rep), "symx", "pad count is "+cnt)
 	gc := newGuardCache(c)
 	okG := false
-	for _, x := range gc.of(rep.Block()) {
+	for _, x := range gc.of(site.Block()) {
 		if strings.HasPrefix(x.str, "bin[<](call[(*github.com/u-root/uio/uio.Buffer).Len](") && strings.HasSuffix(x.str, ",const(300))=true") {
 			okG = true
 		}
@@ -529,7 +563,7 @@ func c07Pad(c *Ctx) {
 		if strings.HasSuffix(k, "uio.Lexer).Write8") && strings.Contains(sx.Of(cl.Call.Args[1]).String(), "const(255)") {
 			endW = cl
 		}
-		if strings.HasSuffix(k, "uio.Lexer).WriteBytes") && cl.Call.Args[1] == ssa.Value(rep) {
+		if strings.HasSuffix(k, "uio.Lexer).WriteBytes") && cl.Call.Args[1] == ssa.Value(site) {
 			padW = cl
 		}
 	})
